@@ -29,6 +29,9 @@ func (f *Frame) instr(ins ssa.Instruction) {
 		l := &Loc{Kind: locCell, T: et, Ptr: r}
 		e.store(f.heap, l, e.S.zero(et))
 		f.vals[x] = Val{T: r}
+		if !escapes(x, map[ssa.Value]bool{}) {
+			f.private = append(f.private, l)
+		}
 	case *ssa.BinOp:
 		f.binop(x)
 	case *ssa.UnOp:
@@ -710,6 +713,9 @@ func (f *Frame) ret(x *ssa.Return) {
 	}
 	env := f.specEnv(f.heap, nil, nil)
 	f.bindResults(env, f.fn, vals)
+	if e.con.NoReturn {
+		e.addObl("noreturn", "", f.curReach, "false", x.Pos(), "declared noreturn: no normal return may be reachable", f.props())
+	}
 	for i, c := range e.con.Ensures {
 		t, err := env.evalBool(c.Expr)
 		if err != nil {
@@ -719,13 +725,13 @@ func (f *Frame) ret(x *ssa.Return) {
 		e.addObl("post", clauseLabel(c, i), f.curReach, t, x.Pos(), c.Src, clauseProps(c, f.props()))
 	}
 	if f.fn.Name() == "init" && f.fn.Signature.Recv() == nil && f.fn.Parent() == nil && f.fn.Pkg != nil {
-		for i, gi := range e.P.specs.GlobalInv {
+		for i, gi := range append(append([]Axiom{}, e.P.specs.GlobalInv...), e.P.specs.InitTable...) {
 			if gi.PkgPath != f.fn.Pkg.Pkg.Path() {
 				continue
 			}
 			t, err := env.evalBool(gi.C.Expr)
 			if err != nil {
-				e.unsupp("globalinv: " + err.Error())
+				e.unsupp("table clause: " + err.Error())
 				continue
 			}
 			e.addObl("table", clauseLabel(gi.C, i), f.curReach, t, x.Pos(), gi.C.Src, clauseProps(gi.C, f.props()))
@@ -847,6 +853,71 @@ func knownNonNil(v ssa.Value) bool {
 	case *ssa.FieldAddr, *ssa.IndexAddr:
 		_ = x
 		return true
+	}
+	return false
+}
+
+// escapes: the address held by v may become reachable from code outside this
+// function body (and the closures it calls directly).
+func escapes(v ssa.Value, seen map[ssa.Value]bool) bool {
+	if seen[v] {
+		return false
+	}
+	seen[v] = true
+	refs := v.Referrers()
+	if refs == nil {
+		return true
+	}
+	for _, r := range *refs {
+		switch u := r.(type) {
+		case *ssa.DebugRef:
+		case *ssa.UnOp:
+			// load through the pointer
+		case *ssa.Store:
+			if u.Val == v {
+				return true
+			}
+		case *ssa.FieldAddr:
+			if escapes(u, seen) {
+				return true
+			}
+		case *ssa.IndexAddr:
+			if escapes(u, seen) {
+				return true
+			}
+		case *ssa.MakeClosure:
+			// captured: fine if the closure is only ever called/deferred directly and the
+			// captured variable does not escape inside it
+			crefs := u.Referrers()
+			if crefs == nil {
+				return true
+			}
+			for _, cr := range *crefs {
+				switch cu := cr.(type) {
+				case *ssa.Call:
+					if cu.Call.Value != ssa.Value(u) {
+						return true
+					}
+				case *ssa.Defer:
+					if cu.Call.Value != ssa.Value(u) {
+						return true
+					}
+				case *ssa.DebugRef:
+				default:
+					return true
+				}
+			}
+			fn := u.Fn.(*ssa.Function)
+			for i, b := range u.Bindings {
+				if b == v && i < len(fn.FreeVars) {
+					if escapes(fn.FreeVars[i], seen) {
+						return true
+					}
+				}
+			}
+		default:
+			return true
+		}
 	}
 	return false
 }
